@@ -296,7 +296,7 @@ func inmemRules(c *an.Ctx) {
 	c.Check(okNorm, "C19.inmem", "normalize", norm.Pos(), `normalize is path.Join("/", filepath.ToSlash(p))`, `InMemLoader.normalize is not path.Join("/", filepath.ToSlash(p)): spellings of one clean absolute path are no longer one entry`)
 	// every access to files in a method with a path parameter uses normalize(param)
 	n := 0
-	for _, f := range p.Fns {
+	for _, f := range p.Units() {
 		if f.Pkg != p.Jet || f.Sig == nil || f.Sig.Recv() == nil || an.TypeName(f.Sig.Recv().Type()) != "*jet.InMemLoader" || f == norm {
 			continue
 		}
@@ -375,7 +375,7 @@ func multiRules(c *an.Ctx) {
 	}
 	info := pk.TypesInfo
 	nLoops := 0
-	for _, f := range p.Fns {
+	for _, f := range p.Units() {
 		if f.Pkg != pk || f.Body == nil {
 			continue
 		}
